@@ -429,7 +429,7 @@ func (d *c11Deriver) nodeAs(e c11El, kind string, ptr string, underCb bool, isDo
 
 func c11FileAbstract(f map[string]any) map[string]any {
 	view := jstr(f, "view")
-	out := map[string]any{"parses": view != "bad", "tops": []any{}, "elem": []any{}, "extra": []any{}, "typed": []any{}, "raw": []any{}}
+	out := map[string]any{"parses": view != "bad", "tops": []any{}, "elem": []any{}, "extra": []any{}, "typed": []any{}, "raw": []any{}, "conflict": false, "emptyPI": false}
 	if view == "bad" {
 		return out
 	}
@@ -463,6 +463,8 @@ func c11FileAbstract(f map[string]any) map[string]any {
 		}
 	}
 	out["conflict"] = view != "doc" && hasSchema && hasContent
+	// read as a path item: empty unless the JSON has a description (c11Base) or path-item members
+	out["emptyPI"] = !(view == "pathItem" || view == "response" || view == "requestBody")
 	extra := []any{}
 	if defs, ok := f["defs"].(map[string]any); ok {
 		names := []string{}
@@ -812,6 +814,9 @@ func (u *c11Uni) refText(kind string, base string, depth int) string {
 		}
 		return "#/components/" + c11KindColl[kind] + "/" + hx.Pick(r, []string{"A", "B"})
 	case kind == "pathItem" && r.Chance(15):
+		if r.Chance(20) {
+			return "#/components/callbacks/" + hx.Pick(r, []string{"A", "B"}) + "/evt"
+		}
 		return "#/paths/" + hx.Pick(r, []string{"~1x", "~1y", "~1z"})
 	case r.Chance(45): // whole file
 		name := c11ElemName[kind]
@@ -833,6 +838,9 @@ func (u *c11Uni) refText(kind string, base string, depth int) string {
 		t := dir + name
 		u.ensure(c11Resolve(base, t), "doc", depth)
 		if kind == "pathItem" {
+			if r.Chance(15) {
+				return t + "#/components/callbacks/" + hx.Pick(r, []string{"A", "B"}) + "/" + hx.Pick(r, []string{"evt", "evt2"}) // below a callback: raw re-read only
+			}
 			return t + "#/paths/" + hx.Pick(r, []string{"~1x", "~1y"})
 		}
 		switch r.Intn(12) {
@@ -1282,6 +1290,8 @@ func genC11(ctx *hx.Ctx, emit func(hx.Case)) {
 			}
 		}
 	}
+	c11GenChains(ctx, emit)
+	c11GenOtherKind(ctx, emit)
 	// random stream
 	n := 2500
 	if ctx.Thorough() {
@@ -1289,6 +1299,127 @@ func genC11(ctx *hx.Ctx, emit func(hx.Case)) {
 	}
 	for i := 0; i < n; i++ {
 		emit(c11RandomCase(ctx.Rng))
+	}
+}
+
+// ---- enumerated: a path item whose target is itself a $ref path item (9b25d89)
+
+func c11GenChains(ctx *hx.Ctx, emit func(hx.Case)) {
+	firsts := []c11Spelling{{"", "/r/a/", true}, {"../b/", "/r/b/", true}, {"sub/", "/r/a/sub/", true}, {"https://h.example/r/a/", "https://h.example/r/a/", true},
+		{"/r/b/", "/r/b/", true}, {"gone/", "", true}}
+	seconds := []string{"pi.json", "../c/pi.json", "../c/e.json#/paths/~1y", "#/paths/~1y", "#/paths/~1x", "e.json#/paths/~1nope", "http://other.example/pi.json"}
+	i := 0
+	for _, f := range firsts {
+		for _, sec := range seconds {
+			for _, entry := range []string{"file", "dataWithPath", "data"} {
+				for _, allowed := range []bool{false, true} {
+					for where := 0; where < 3; where++ {
+						i++
+						if !ctx.Thorough() && i%3 != 0 {
+							continue
+						}
+						ref := c11NewEl("pathItem", f.dir+"d.json#/paths/~1x")
+						var rootKid [2]any
+						switch where {
+						case 0:
+							rootKid = kid(ref, "paths", "/x")
+						case 1:
+							rootKid = kid(c11With(c11NewEl("callback", ""), kid(ref, "evt")), "components", "callbacks", "C")
+						default:
+							rootKid = kid(c11With(c11NewEl("pathItem", ""), kid(c11With(c11NewEl("callback", ""), kid(ref, "evt")), "get", "callbacks", "cb1")), "paths", "/p")
+						}
+						files := []any{c11Doc("/r/a/root.json", rootKid)}
+						if f.target != "" {
+							inl := c11With(c11NewEl("pathItem", ""), kid(c11NewEl("parameter", "p.json"), "parameters", "0"))
+							files = append(files, c11Doc(f.target+"d.json", kid(c11NewEl("pathItem", sec), "paths", "/x"), kid(inl, "paths", "/y")))
+							// second hops, resolved against the first target's location
+							for _, t := range []string{"pi.json", "../c/pi.json"} {
+								loc := c11Resolve(f.target+"d.json", t)
+								files = append(files, c11Elem(loc, "pathItem", kid(c11NewEl("parameter", "p.json"), "parameters", "0")), c11Elem(c11Resolve(loc, "p.json"), "parameter"))
+							}
+							e := c11Resolve(f.target+"d.json", "../c/e.json")
+							files = append(files, c11Doc(e, kid(c11With(c11NewEl("pathItem", ""), kid(c11NewEl("parameter", "q.json"), "parameters", "0")), "paths", "/y")),
+								c11Elem(c11Resolve(e, "q.json"), "parameter"), c11Doc(c11Resolve(f.target+"d.json", "e.json")), c11Elem("/r/a/p.json", "parameter"))
+						}
+						files = c11DedupFiles(files)
+						g := map[string]any{"allowed": allowed, "entry": entry, "root": "/r/a/root.json", "rootInStore": true, "files": files}
+						emit(c11Derive(hx.Case{"g": g}))
+					}
+				}
+			}
+		}
+	}
+}
+
+func c11DedupFiles(files []any) []any {
+	seen := map[string]bool{}
+	out := []any{}
+	for _, fa := range files {
+		f, _ := fa.(map[string]any)
+		_, u := c11UrlJSON(jstr(f, "loc"))
+		if u == nil || seen[c11Key(u)] {
+			continue
+		}
+		seen[c11Key(u)] = true
+		out = append(out, f)
+	}
+	return out
+}
+
+// ---- enumerated: a reference text in progress for one kind and met again under another kind (a04fe6c)
+
+func c11GenOtherKind(ctx *hx.Ctx, emit func(hx.Case)) {
+	i := 0
+	for _, K := range []string{"header", "parameter", "requestBody", "response", "callback", "pathItem"} {
+		slots := c11Slots(K)
+		if K == "parameter" {
+			slots = c11ParamGroup(slots, false)
+		}
+		for _, sl := range slots {
+			if sl.kind == "callback" {
+				continue // x.json would be read as a callback: every key of a non-callback file is then parsed as a path item (not modelled)
+			}
+			for shape := 0; shape < 6; shape++ {
+				for _, entry := range []string{"file", "dataWithPath", "data"} {
+					for _, allowed := range []bool{false, true} {
+						i++
+						if !ctx.Thorough() && i%2 != 0 {
+							continue
+						}
+						// x.json: an element of kind K whose sub-element at sl (kind J) is "x.json" again
+						xfile := func(loc string) map[string]any {
+							return c11Elem(loc, K, [2]any{sl.slot, c11NewEl(sl.kind, "x.json")})
+						}
+						slot := []string{"components", c11KindColl[K], "R"}
+						hslot := []string{"components", c11KindColl[K], "H"}
+						frag := "#/components/" + c11KindColl[K] + "/H"
+						if K == "pathItem" {
+							slot, hslot, frag = []string{"paths", "/r"}, []string{"paths", "/h"}, "#/paths/~1h"
+						}
+						var files []any
+						switch shape {
+						case 0: // directly from the root: first walk only
+							files = []any{c11Doc("/r/a/root.json", [2]any{slot, c11NewEl(K, "b/x.json")}), xfile("/r/a/b/x.json"), xfile("/r/a/x.json")}
+						case 1: // through a document in another directory: the second walk resolves against the root
+							files = []any{c11Doc("/r/a/root.json", [2]any{slot, c11NewEl(K, "b/d.json"+frag)}),
+								c11Doc("/r/a/b/d.json", [2]any{hslot, c11NewEl(K, "x.json")}), xfile("/r/a/b/x.json"), c11Elem("/r/a/x.json", sl.kind)}
+						case 2: // the same, everything in one directory
+							files = []any{c11Doc("/r/a/root.json", [2]any{slot, c11NewEl(K, "d.json"+frag)}),
+								c11Doc("/r/a/d.json", [2]any{hslot, c11NewEl(K, "x.json")}), xfile("/r/a/x.json")}
+						case 3: // directly from the root, same text: first walk only
+							files = []any{c11Doc("/r/a/root.json", [2]any{slot, c11NewEl(K, "x.json")}), xfile("/r/a/x.json")}
+						case 4: // through a '#'-reference of the root itself, same text
+							files = []any{c11Doc("/r/a/root.json", [2]any{slot, c11NewEl(K, frag)}, [2]any{hslot, c11NewEl(K, "x.json")}), xfile("/r/a/x.json")}
+						default: // through a '#'-reference of the root itself, another directory (the inner text differs: not in progress)
+							files = []any{c11Doc("/r/a/root.json", [2]any{slot, c11NewEl(K, frag)}, [2]any{hslot, c11NewEl(K, "b/x.json")}),
+								xfile("/r/a/b/x.json"), c11Elem("/r/a/x.json", sl.kind), c11Elem("/r/a/b/b/x.json", sl.kind)}
+						}
+						g := map[string]any{"allowed": allowed, "entry": entry, "root": "/r/a/root.json", "rootInStore": true, "files": files}
+						emit(c11Derive(hx.Case{"g": g}))
+					}
+				}
+			}
+		}
 	}
 }
 
